@@ -223,6 +223,14 @@ class Program:
                 if isinstance(t, ast.Name):
                     mi.const_multi[t.id] = mi.const_multi.get(t.id, 0) + 1
                     mi.consts[t.id] = value
+                elif isinstance(t, (ast.Tuple, ast.List)) and all(isinstance(x, ast.Name) for x in t.elts):
+                    # A, B, C = x, y, z   /   A, B, C = range(3): each name is the element at its position
+                    for i, x in enumerate(t.elts):
+                        mi.const_multi[x.id] = mi.const_multi.get(x.id, 0) + 1
+                        if isinstance(value, (ast.Tuple, ast.List)) and len(value.elts) == len(t.elts) and not any(isinstance(e, ast.Starred) for e in value.elts):
+                            mi.consts[x.id] = value.elts[i]
+                        else:
+                            mi.consts[x.id] = ast.copy_location(ast.Subscript(value=value, slice=ast.Constant(value=i), ctx=ast.Load()), value)
         elif isinstance(st, (ast.FunctionDef, ast.AsyncFunctionDef)):
             fi = FuncInfo(f"{mi.name}.{st.name}", st.name, mi, None, st, "function")
             mi.functions[st.name] = fi
@@ -444,6 +452,101 @@ class Program:
                 else:
                     return UNKNOWN
             return "".join(parts)
+        if isinstance(e, ast.Subscript) and not isinstance(e.slice, ast.Slice) and isinstance(e.value, (ast.Name, ast.Attribute)):
+            # Enum['NAME']
+            r_ = self.resolve_name_expr(mi, e.value) if not (local and isinstance(e.value, ast.Name) and e.value.id in local) else None
+            if r_ and r_[0] == "class" and self.is_enum(r_[1]):
+                k = self.const(mi, e.slice, local, d)
+                return EnumMember(r_[1].qname, k) if isinstance(k, str) and k in self.enum_members(r_[1]) else UNKNOWN
+        if isinstance(e, ast.Subscript) and not isinstance(e.slice, ast.Slice):
+            c = self.const(mi, e.value, local, d)
+            k = self.const(mi, e.slice, local, d)
+            if c is UNKNOWN or k is UNKNOWN or not isinstance(c, (tuple, list, dict, str)):
+                return UNKNOWN
+            try:
+                return c[k]
+            except (KeyError, IndexError, TypeError):
+                return UNKNOWN
+        if isinstance(e, ast.Call) and isinstance(e.func, ast.Name) and e.func.id in ("range", "enumerate", "zip", "len", "reversed") and not (local and e.func.id in local) \
+                and not any(isinstance(a, ast.Starred) for a in e.args) and self.resolve_name_expr(mi, e.func) is None:
+            vals = [self.const(mi, a, local, d) for a in e.args]
+            kws = {k.arg: self.const(mi, k.value, local, d) for k in e.keywords if k.arg}
+            if any(v is UNKNOWN for v in vals) or any(v is UNKNOWN for v in kws.values()) or any(k.arg is None for k in e.keywords):
+                return UNKNOWN
+            try:
+                if e.func.id == "len":
+                    return len(*vals)
+                return tuple({"range": range, "enumerate": enumerate, "zip": zip, "reversed": reversed}[e.func.id](*vals, **kws))
+            except (TypeError, ValueError):
+                return UNKNOWN
+        if isinstance(e, (ast.ListComp, ast.SetComp, ast.DictComp, ast.GeneratorExp)) and len(e.generators) <= 2 and not any(g.is_async for g in e.generators):
+            # a table computed from another table at import time
+            results = []
+            budget = [4000]
+
+            def bind(t, v, env):
+                if isinstance(t, ast.Name):
+                    env[t.id] = v
+                    return True
+                if isinstance(t, (ast.Tuple, ast.List)) and isinstance(v, (tuple, list)) and len(v) == len(t.elts) and not any(isinstance(x, ast.Starred) for x in t.elts):
+                    return all(bind(x, y, env) for x, y in zip(t.elts, v))
+                return False
+
+            def gen(i, env):
+                if i == len(e.generators):
+                    if isinstance(e, ast.DictComp):
+                        k, v = self.const(mi, e.key, env, d), self.const(mi, e.value, env, d)
+                        if k is UNKNOWN or v is UNKNOWN:
+                            return False
+                        results.append((k, v))
+                    else:
+                        v = self.const(mi, e.elt, env, d)
+                        if v is UNKNOWN:
+                            return False
+                        results.append(v)
+                    return True
+                g = e.generators[i]
+                it = self.const(mi, g.iter, env, d)
+                if it is UNKNOWN or not isinstance(it, (tuple, list, dict, frozenset, str)):
+                    return False
+                for x in (list(it) if not isinstance(it, frozenset) else sorted(it, key=repr)):
+                    budget[0] -= 1
+                    if budget[0] < 0:
+                        return False
+                    env2 = dict(env)
+                    if not bind(g.target, x, env2):
+                        return False
+                    keep = True
+                    for c in g.ifs:
+                        cv = self.const(mi, c, env2, d)
+                        if cv is UNKNOWN:
+                            return False
+                        if not cv:
+                            keep = False
+                            break
+                    if keep and not gen(i + 1, env2):
+                        return False
+                return True
+            if not gen(0, dict(local or {})):
+                return UNKNOWN
+            try:
+                if isinstance(e, ast.DictComp):
+                    return dict(results)
+                if isinstance(e, ast.SetComp):
+                    return frozenset(results)
+                return tuple(results) if isinstance(e, ast.GeneratorExp) else list(results)
+            except TypeError:
+                return UNKNOWN
+        if isinstance(e, ast.Compare) and len(e.ops) == 1 and isinstance(e.ops[0], (ast.Eq, ast.NotEq, ast.In, ast.NotIn, ast.Is, ast.IsNot)):
+            a, b = self.const(mi, e.left, local, d), self.const(mi, e.comparators[0], local, d)
+            if a is UNKNOWN or b is UNKNOWN:
+                return UNKNOWN
+            try:
+                op = e.ops[0]
+                return (a == b) if isinstance(op, ast.Eq) else (a != b) if isinstance(op, ast.NotEq) else (a in b) if isinstance(op, ast.In) else (a not in b) \
+                    if isinstance(op, ast.NotIn) else (a is b) if isinstance(op, ast.Is) else (a is not b)
+            except TypeError:
+                return UNKNOWN
         if isinstance(e, ast.Call) and isinstance(e.func, ast.Name) and e.func.id in ("frozenset", "set", "tuple", "list", "dict", "sorted") and not e.keywords \
                 and len(e.args) <= 1 and not (local and e.func.id in local):
             # a constructor of a constant container over a constant argument
